@@ -146,6 +146,77 @@ def _ctor_table_through_helper(f, fb, adt_path):
     return lit2var, default_ok, None
 
 
+def _semantic_ma_init(f, ib, MA, inst_ty, inst_payload, variants):
+    """[(variant, problem)] from interpreting MA::init abstractly with self = MA::V(any length); None if the interpreter cannot run it"""
+    from absint import St, Budget
+    from absexec import Exec
+    problems = []
+    for V in variants:
+        ex = Exec(f)
+        st = St()
+        b = ex.body(ib.id)
+        if b is None:
+            return None
+        selfv = ex.top_of(st, {'t': 'adt', 'def': MA['path'], 'args': [], 's': MA['path']})
+        if selfv[0] != 'adt':
+            return None
+        selfv = ('adt', selfv[1], frozenset([V]), selfv[3])
+        period_cell = selfv[3][V].get('0') if V in selfv[3] else None
+        pv = st.cells.get(period_cell) if period_cell is not None else None
+        args = [('ref', ex.alloc(st, selfv))]
+        for k in range(2, b.arg_count + 1):
+            args.append(ex.top_of(st, b.locals[k]['tyj']))
+        try:
+            outs = ex.run_fn(b, st, args, [ib.id])
+        except Budget:
+            return None
+        if ex.undecided_callees or ex.undecided_loops:
+            return None
+        ok_seen = False
+        for s2, rv in outs:
+            if rv[0] != 'adt' or rv[2] is None:
+                problems.append((V, 'MA::init(%s) returns a value the analysis cannot classify' % V))
+                continue
+            if 'Ok' in rv[2]:
+                inst = s2.cells.get(rv[3]['Ok']['0'])
+                if inst is None or inst[0] != 'adt' or inst[1] != inst_ty or inst[2] is None:
+                    problems.append((V, 'MA::%s initialises something that is not an MAInstance variant' % V))
+                    continue
+                if set(inst[2]) != {V}:
+                    problems.append((V, 'MA::%s can initialise MAInstance::%s (expected MAInstance::%s)' % (V, '/'.join(sorted(inst[2])), V)))
+                    continue
+                pay = s2.cells.get(inst[3][V].get('0')) if V in inst[3] else None
+                if pay is None or pay[0] != 'adt' or pay[1] != inst_payload.get(V):
+                    problems.append((V, 'MAInstance::%s built by MA::init holds %s (expected %s)' % (V, pay[1] if pay and pay[0] == 'adt' else pay and pay[0], inst_payload.get(V))))
+                    continue
+                ok_seen = True
+        if not ok_seen and not any(v_ == V for v_, _ in problems):
+            problems.append((V, 'MA::init has no Ok outcome for variant %s' % V))
+    return problems
+
+
+def _tests_string_literals(f, body, depth=0, seen=None):
+    """does the function, or a crate-local function it calls, branch on the comparison of a string with a literal?"""
+    if seen is None:
+        seen = set()
+    if body is None or body.id in seen or depth > 3:
+        return False
+    seen.add(body.id)
+    for pf in all_path_facts(body):
+        if pf.str_decisions():
+            return True
+    for bi, t in body.calls():
+        if t['callee'].get('local') and t['callee'].get('def'):
+            hb = f.generic_body(callee_def(t['callee']))
+            if hb is not None and _tests_string_literals(f, Body(hb), depth + 1, seen):
+                return True
+    for cid, cbj in f.bodies.items():
+        if cbj.get('closure_of') == body.defp and cbj['generic'] == body.b.get('generic'):
+            if _tests_string_literals(f, Body(cbj), depth + 1, seen):
+                return True
+    return False
+
+
 def s06_ma_dispatch(ctx):
     f = ctx.facts('default')
     m = Model(f)
@@ -177,6 +248,7 @@ def s06_ma_dispatch(ctx):
     # ---- init
     ib = m.body(m.impl_fn_path(mi, 'init'))
     seen = set()
+    n_viol_before_init = len(r.violations)
     for pf in all_path_facts(ib):
         if not pf.returns:
             continue
@@ -213,6 +285,16 @@ def s06_ma_dispatch(ctx):
     for V in variants:
         if V not in seen:
             r.violate('MA::%s|init|no-ok-path' % V, 'MA::init has no Ok path for variant %s' % V, ib.file, ib.line)
+    if len(r.violations) > n_viol_before_init:
+        # the arms are not written as `Self::V(length) => Ok(Instance::V(T::new(length, &value)?))` (generated by a macro, routed through a
+        # generic helper, ...): decide the same facts semantically, by abstract interpretation of init with self pinned to each variant
+        problems = _semantic_ma_init(f, ib, MA, inst_ty, inst_payload, variants)
+        if problems is not None:
+            del r.violations[n_viol_before_init:]
+            for V_, msg in problems:
+                r.violate('MA::%s|init|semantic' % V_, msg, ib.file, ib.line)
+            if not problems:
+                r.sample({'MA::init': 'decided by abstract interpretation per variant: Ok(MAInstance::V(<the method MAInstance::V holds>)) or Err', 'variants': len(variants)})
     # ---- MAInstance::next
     nimp = [i for i in m.method_impls if m.adt_path_of_impl(i) == inst_ty]
     if len(nimp) != 1:
@@ -248,7 +330,7 @@ def s06_ma_dispatch(ctx):
         if v['name'] not in seen:
             r.violate('MAInstance::%s|next|missing' % v['name'], 'no arm for %s' % v['name'], nb.file, nb.line)
     # ---- ma_period / ma_type
-    pb = m.body(m.impl_fn_path(mi, 'ma_period'))
+    pb = m.body_inlined(m.impl_fn_path(mi, 'ma_period'))
     seen = set()
     for pf in all_path_facts(pb):
         if not pf.returns:
@@ -264,7 +346,7 @@ def s06_ma_dispatch(ctx):
     for V in variants:
         if V not in seen:
             r.violate('MA::%s|ma_period|missing' % V, 'ma_period has no arm returning the period of %s' % V, pb.file, pb.line)
-    tb = m.body(m.impl_fn_path(mi, 'ma_type'))
+    tb = m.body_inlined(m.impl_fn_path(mi, 'ma_type'))
     codes = {}
     for pf in all_path_facts(tb):
         if not pf.returns:
@@ -330,6 +412,14 @@ def s06_ma_dispatch(ctx):
                 r.violate('MA|from_str|helper-table|' + why.split(':')[0], 'from_str (name table in a helper): %s' % why, fb.file, fb.line)
             for lit in lit2var:
                 r.inst('MA|from_str|"%s"' % lit)
+    if not lit2var and not _tests_string_literals(f, fb):
+        # neither from_str nor any function it reaches compares the name with string literals: the names live in a data table that is
+        # searched at run time; which name selects which kind is then a value-level fact this rule does not decide
+        r.undecided.append('MA::from_str looks names up in a data table (no literal comparisons in code): name -> kind mapping not decided')
+        r.info['from_str'] = 'not decided: data-table lookup'
+        r.floor('MA variants', 15, len(variants))
+        r.info['variants'] = variants
+        return r
     if not default_ok:
         r.violate('MA|from_str|<default>|missing', 'from_str has no rejecting default arm', fb.file, fb.line)
     var2lit = {}
@@ -400,7 +490,13 @@ def s18_source_tables(ctx):
                 r.violate('Source|from_str|<default>|ok', 'unknown source names are accepted as %s' % variant, fb.file, fb.line)
             else:
                 default_err = True
-    if not default_err:
+    from_str_table_in_data = not F and not _tests_string_literals(f, fb)
+    if from_str_table_in_data:
+        # the names are looked up in a data table at run time (no literal comparisons in code): the text -> Source direction is not decided;
+        # the Source -> text table and the accessor wiring below still are
+        r.undecided.append('Source::from_str looks names up in a data table: text -> Source mapping and the round trip are not decided')
+        r.info['from_str'] = 'not decided: data-table lookup'
+    if not default_err and not from_str_table_in_data:
         r.violate('Source|from_str|<default>|missing', 'from_str has no rejecting default arm', fb.file, fb.line)
     for l, vs in F.items():
         if len(vs) != 1:
@@ -451,6 +547,9 @@ def s18_source_tables(ctx):
             continue
         lit = G[V]
         back = F.get(lit)
+        if from_str_table_in_data:
+            r.sample({'variant': V, 'text': lit, 'parses_back_to': 'not decided (data-table lookup)'})
+            continue
         if back != {V}:
             r.violate(key + '|round-trip|%s' % lit, 'Source::%s prints as "%s", which parses to %s' % (V, lit, sorted(back) if back else 'an error'), fb.file, fb.line)
         if normalise(lit) != lit:
@@ -531,7 +630,8 @@ def s18_source_tables(ctx):
         if V not in seen and V in G:
             r.violate('OHLCV::source|%s|missing' % V, 'source() has no arm for %s' % V, sb.file, sb.line)
     r.floor('Source variants', 8, len(variants))
-    r.floor('from_str literals', 9, len(F))
+    if not from_str_table_in_data:
+        r.floor('from_str literals', 9, len(F))
     return r
 
 
@@ -545,7 +645,7 @@ def s18b_clv_zero_range(ctx):
     cp = [it['path'] for it in ohlcv['items'] if it['name'] == 'clv']
     if not cp:
         raise Broken('OHLCV::clv not found')
-    b = m.body(cp[0], prefer_mono=False)
+    b = m.body_inlined(cp[0], prefer_mono=False)
     if b is None:
         raise Broken('no body for OHLCV::clv')
 
